@@ -103,7 +103,7 @@ class filter_pairs_by_index(FnContract):
     def result(self, c, a):
         m = c.int("n_pairs")
         c.assume(m >= 0)
-        return sym.SSeq(m, (lambda q, f=c.seq("pi", m, (), "int"), g=c.seq("pj", m, (), "int"): (f.get(q), g.get(q))))
+        return sym.SSeq(m, (lambda q, f=c.seq("pair_i", m, (), "int"), g=c.seq("pair_j", m, (), "int"): (f.get(q), g.get(q))))
 
     def post(self, c, a, res):
         res = sym.as_seq(res)
@@ -164,7 +164,7 @@ class filter_pairs_by_path(FnContract):
     def result(self, c, a):
         m = c.int("n_pairs")
         c.assume(m >= 0)
-        return sym.SSeq(m, (lambda q, f=c.seq("pi", m, (), "int"), g=c.seq("pj", m, (), "int"): (f.get(q), g.get(q))))
+        return sym.SSeq(m, (lambda q, f=c.seq("pair_i", m, (), "int"), g=c.seq("pair_j", m, (), "int"): (f.get(q), g.get(q))))
 
     def post(self, c, a, res):
         res = sym.as_seq(res)
@@ -251,8 +251,7 @@ class filter_by_motion(FnContract):
         return r
 
     def _athr(self, c, a):
-        pi = sym.pi_axiom()
-        return a.angle_threshold * pi / 180 if a.degrees else a.angle_threshold
+        return npstub.deg2rad(a.angle_threshold) if a.degrees else a.angle_threshold
 
     def post(self, c, a, res):
         ids = sym.as_seq(res)
@@ -304,3 +303,191 @@ class filter_by_motion(FnContract):
         "previous_angle_id": defined_by(lambda c, old, ns: sym.as_seq(ns.filtered_ids).get(c.len(ns.filtered_ids) - 1)),
         "previous_distance": defined_by(lambda c, old, ns: path_fn(c, ns.poses)(
             sym.as_seq(ns.filtered_ids).get(c.len(ns.filtered_ids) - 1)))})}
+
+
+# ---- angle (consecutive mode; the vectorised all-pairs mode is out of the verifier's reach: bounded only) -------
+
+def rot_acc_fn(c, P):
+    """spec: accumulated rotation A(k) = sum_{t<k} ang(t, t+1) along the pose list"""
+    def body(t):
+        a, b = P.get(t), P.get(t + 1)
+        tr = 0
+        for r in range(3):
+            for q in range(3):
+                tr = tr + a[q, r] * b[q, r]
+        return npstub.angle_of_trace(tr)
+    return npstub.prefix_sum(body, nonneg=True)
+
+
+@register
+class filter_pairs_by_angle(FnContract):
+    name = M + "filter_pairs_by_angle"
+    props = ["C10", "C02"]
+
+    def cases(self):
+        return [{"degrees": False, "all_pairs": False}, {"degrees": True, "all_pairs": False},
+                {"degrees": False, "all_pairs": True}]
+
+    def args(self, c, degrees=False, all_pairs=False):
+        P, n = poses_input(c, "P", 1)
+        delta, tol = c.real("delta"), c.real("tol")
+        return dict(poses=P, delta=delta, tol=tol, degrees=degrees, all_pairs=all_pairs)
+
+    def pre(self, c, a):
+        yield ("nonempty", c.len(a.poses) >= 1)
+
+    def _bound(self, c, a):
+        return 180 if a.degrees else sym.pi_axiom()
+
+    raises = (Raises("FilterException", "delta_outside_0_pi",
+                     lambda c, a: c.Or(a.delta < 0, a.delta > (180 if a.degrees else sym.pi_axiom())), role="prop"), )
+
+    def result(self, c, a):
+        m = c.int("n_pairs")
+        c.assume(m >= 0)
+        return sym.SSeq(m, (lambda q, f=c.seq("pair_i", m, (), "int"), g=c.seq("pair_j", m, (), "int"): (f.get(q), g.get(q))))
+
+    def post(self, c, a, res):
+        res = sym.as_seq(res)
+        P, N, m = a.poses, c.len(a.poses), c.len(res)
+        I = lambda k: res.get(k)[0]
+        J = lambda k: res.get(k)[1]
+        yield Clause("valid_indices", c.forall(m, lambda k: c.And(0 <= I(k), I(k) < J(k), J(k) < N)), role="prop")
+        if a.all_pairs:
+            return
+        A = rot_acc_fn(c, P)
+        delta = npstub.deg2rad(a.delta) if a.degrees else a.delta
+        yield Clause("chain_from_first_pose", c.And(c.Implies(m >= 1, I(0) == 0),
+                                                    c.forall_adjacent(m, lambda x, y: I(y) == J(x))), role="prop")
+        yield Clause("end_is_first_pose_reaching_delta", c.forall(m, lambda k: c.And(
+            A(J(k)) - A(I(k)) >= delta,
+            c.forall_where(I(k) + 1, J(k), lambda j: A(j) - A(I(k)) < delta, None, "j"))), role="prop")
+        last = c.ite(m >= 1, J(c.ite(m >= 1, m - 1, 0)), 0)
+        yield Clause("rest_does_not_reach_delta", c.forall_where(last + 1, N, lambda j: A(j) - A(last) < delta,
+                                                                 None, "j"), role="prop")
+
+    def _inv(c, i, v):
+        P = v.poses
+        A = rot_acc_fn(c, P)
+        pairs = sym.as_seq(v.id_pairs)
+        m = c.len(pairs)
+        I = lambda k: pairs.get(k)[0]
+        J = lambda k: pairs.get(k)[1]
+        start = v.current_start_index
+        yield "valid", c.forall(m, lambda k: c.And(0 <= I(k), I(k) < J(k), J(k) <= i))
+        yield "start", c.And(start == c.ite(m >= 1, J(c.ite(m >= 1, m - 1, 0)), 0), 0 <= start, start <= i)
+        yield "chain", c.And(c.Implies(m >= 1, I(0) == 0), c.forall_adjacent(m, lambda x, y: I(y) == J(x)))
+        yield "accumulator", v.accumulated_delta == A(i) - A(start)
+        yield "reaches", c.forall(m, lambda k: c.And(
+            A(J(k)) - A(I(k)) >= v.delta,
+            c.forall_where(I(k) + 1, J(k), lambda j: A(j) - A(I(k)) < v.delta, None, "j")))
+        yield "rest_below", c.forall_where(start + 1, i + 1, lambda j: A(j) - A(start) < v.delta, None, "j")
+
+    loops = {0: LoopSpec(lambda c, i, v: (_ for _ in ()).throw(sym.OutOfReach(
+                 "vectorised all-pairs angle search (scipy Rotation stacks) is outside the supported subset"))),
+             1: LoopSpec(_inv, types={
+                 "id_pairs": "list[int,int]",
+                 "current_start_index": defined_by(lambda c, old, ns: c.ite(
+                     c.len(ns.id_pairs) >= 1,
+                     sym.as_seq(ns.id_pairs).get(c.ite(c.len(ns.id_pairs) >= 1, c.len(ns.id_pairs) - 1, 0))[1], 0))})}
+
+
+# ---- metrics.id_pairs_from_delta: unit dispatch ------------------------------------------------------------
+
+def _remember(name):
+    """decorator for result(): the callee's result is kept as a ghost, to be named by the caller's contract"""
+    def deco(fn):
+        def wrapped(self, c, a):
+            r = fn(self, c, a)
+            sym.cur().ghost["result:" + name] = (r, a)
+            return r
+        return wrapped
+    return deco
+
+
+for _cls in (filter_pairs_by_index, filter_pairs_by_path, filter_pairs_by_angle):
+    _cls.result = _remember(_cls.name)(_cls.result)
+
+UNITS = ["none", "millimeters", "centimeters", "meters", "kilometers", "seconds", "degrees", "radians", "frames",
+         "percent"]
+
+
+@register
+class id_pairs_from_delta(FnContract):
+    name = "evo.core.metrics.id_pairs_from_delta"
+    props = ["C10", "C02"]
+
+    def cases(self):
+        out = []
+        for u in UNITS:
+            for ap in (False, True):
+                if u in ("degrees", "radians") and ap:
+                    continue   # all-pairs angle search: callee out of reach (bounded only)
+                out.append({"unit": u, "all_pairs": ap})
+        return out
+
+    def args(self, c, unit="frames", all_pairs=False):
+        from pyvc import session
+        U = session.loader().load("evo.core.units").Unit
+        P, n = poses_input(c, "P", 1)
+        delta = c.int("delta") if unit == "frames" else c.real("delta")
+        rel_tol = c.real("rel_tol")
+        c.assume(rel_tol >= 0)
+        return dict(poses=P, delta=delta, delta_unit=getattr(U, unit), rel_tol=rel_tol, all_pairs=all_pairs)
+
+    def pre(self, c, a):
+        yield ("nonempty", c.len(a.poses) >= 1)
+        yield ("delta_positive", a.delta >= 1 if a.delta_unit.name == "frames" else a.delta > 0)
+
+    def _callee(self, a):
+        u = a.delta_unit.name
+        if u == "frames":
+            return filter_pairs_by_index.name
+        if u == "meters":
+            return filter_pairs_by_path.name
+        if u in ("degrees", "radians"):
+            return filter_pairs_by_angle.name
+        return None
+
+    def _empty(c, a):
+        g = sym.cur().ghost
+        con = REG_BY_UNIT(a)
+        if con is None or ("result:" + con) not in g:
+            return False
+        return c.len(g["result:" + con][0]) == 0
+
+    raises = (Raises("FilterException", "unsupported_unit",
+                     lambda c, a: a.delta_unit.name not in ("frames", "meters", "degrees", "radians"), role="prop"),
+              Raises("FilterException", "delta_angle_outside_range",
+                     lambda c, a: (a.delta_unit.name in ("degrees", "radians")) and
+                     c.Or(a.delta < 0, a.delta > (180 if a.delta_unit.name == "degrees" else sym.pi_axiom())),
+                     role="prop"),
+              Raises("FilterException", "no_pair_exists", _empty, role="prop"))
+
+    def result(self, c, a):
+        m = c.int("n_pairs")
+        c.assume(m >= 1)
+        return sym.SSeq(m, (lambda q, f=c.seq("pair_i", m, (), "int"), g=c.seq("pair_j", m, (), "int"): (f.get(q), g.get(q))))
+
+    def post(self, c, a, res):
+        import types
+        u = a.delta_unit.name
+        yield Clause("not_empty", c.len(res) >= 1, role="prop")
+        if u == "frames":
+            ca = types.SimpleNamespace(poses=a.poses, delta=a.delta, all_pairs=a.all_pairs)
+            sub = filter_pairs_by_index()
+        elif u == "meters":
+            ca = types.SimpleNamespace(poses=a.poses, delta=a.delta, tol=a.delta * a.rel_tol, all_pairs=a.all_pairs)
+            sub = filter_pairs_by_path()
+        else:
+            ca = types.SimpleNamespace(poses=a.poses, delta=a.delta, tol=a.delta * a.rel_tol,
+                                       degrees=(u == "degrees"), all_pairs=a.all_pairs)
+            sub = filter_pairs_by_angle()
+        for cl in sub.post(c, ca, res):
+            yield Clause("%s[%s]" % (cl.label, u), cl.cond, role=cl.role)
+
+
+def REG_BY_UNIT(a):
+    u = a.delta_unit.name
+    return {"frames": filter_pairs_by_index.name, "meters": filter_pairs_by_path.name,
+            "degrees": filter_pairs_by_angle.name, "radians": filter_pairs_by_angle.name}.get(u)
